@@ -232,6 +232,13 @@ class TFail(_TOp):
         raise VerifProcError("boom")
 
 
+class TFailMsg(_TOp):
+    """Operation that raises the processor's own error with a caller-supplied message (C06: unusual text in error fields)."""
+
+    def _process_logic(self, data, msg):
+        raise VerifProcError(msg)
+
+
 class TFailKI(_TOp):
     """Operation whose body raises a KeyboardInterrupt-class abort."""
 
